@@ -657,8 +657,12 @@ def replay(ctx, path):
     r = json.load(open(path))
     print(json.dumps(r, indent=1))
     w = r.get("replay", {})
-    if "requiring_file" in w and "require" in w and "current" in w:
-        files = [f for f in w.get("files_present", []) if f]
-        C.build_harness("dl-c15")
-        print(C.harness("dl-c15", ["one", w["current"], w["target"], w["requiring_file"], w["require"]] + files))
+    if "requiring_file" in w and "require" in w:
+        cur = w.get("current", w.get("config"))
+        tgt = w.get("target", w.get("config"))
+        files = [f for f in w.get("files_present", w.get("layout_files_present", [])) if f]
+        if cur and tgt:
+            C.build_harness("dl-c15")
+            print("re-running on the current tree: find (current mode); generate (target mode); find (target mode)")
+            print(C.harness("dl-c15", ["one", cur, tgt, w["requiring_file"], w["require"]] + files))
     return 0
